@@ -216,4 +216,35 @@ def load {P : Type} (E : Env P) (bc : BuildCache) (p : Str) (srcModTime : Time) 
 def store {P : Type} (E : Env P) (bc : BuildCache) (p : Str) (t : Time) (pl : P) (fs : FS) : FS :=
   run fs (storeSteps E bc p [48] [E.sealE (t, pl)])
 
+/-! ### `Sources.Write` → `prepareFile` (compiler/sources/serializer.go:79-118): the package being stored
+
+  `prepareFile` works on a SHALLOW copy of the `ast.File`: the copy's `Comments` slice shares its backing array
+  with the file the current build goes on to compile. The model keeps Go's slice semantics explicit: a heap of
+  backing arrays, a slice = (array, length), `append` to a nil slice allocates a fresh array. -/
+
+/-- backing arrays of `[]*ast.CommentGroup` slices; a comment group is a number (its identity) -/
+abbrev Heap := Nat → List Nat
+
+structure Slice where
+  arr : Nat
+  len : Nat
+deriving DecidableEq, Repr
+
+/-- the elements a slice denotes -/
+def Slice.view (h : Heap) (s : Slice) : List Nat := (h s.arr).take s.len
+
+def Heap.set (h : Heap) (a : Nat) (v : List Nat) : Heap := fun b => if b = a then v else h b
+
+/-- serializer.go:93-108: `var floating []*ast.CommentGroup; for … { if !attached[cg] { floating = append(floating, cg) } }`
+    — the appends go to a FRESH backing array `fresh`; returns the heap and the copy's `Comments`. -/
+def prepareComments (h : Heap) (comments : Slice) (attached : Nat → Bool) (fresh : Nat) : Heap × Slice :=
+  let fl := (comments.view h).filter (fun cg => !attached cg)
+  (h.set fresh fl, ⟨fresh, fl.length⟩)
+
+/-- NOT the code: the variant `floating := file.Comments[:0]`, which filters in place — the appends overwrite the
+    front of the ORIGINAL backing array (kept to show that `store_preserves_input` is not vacuous). -/
+def prepareCommentsInPlace (h : Heap) (comments : Slice) (attached : Nat → Bool) : Heap × Slice :=
+  let fl := (comments.view h).filter (fun cg => !attached cg)
+  (h.set comments.arr (fl ++ (h comments.arr).drop fl.length), ⟨comments.arr, fl.length⟩)
+
 end GV.Cache
